@@ -34,4 +34,15 @@ PROPS = {
         ],
         unreached=["EntryWriter::finish (document assembly, newline framing)", "write_all_vectored (see C16)", "json_string.rs (serde_json)"],
     ),
+    "C08": dict(
+        verus=[("emf_cfg", {"profile_debug": True}), ("emf_cfg", {"profile_debug": False})],
+        technique="Verus function contracts on the extracted real Emf::builder / all_validations / no_validations / skip_all_validations, once per build profile",
+        level_text="Deductive proof (Verus/z3) that every documented way of enabling validations really enables all three validation switches in BOTH build profiles "
+                   "(cfg(debug_assertions) resolved mechanically per profile), that no_validations disables all, and that skip_all_validations is monotone and touches nothing else.",
+        level_note="Trusted: EmfBuilder::build forwards the switches unchanged (assumed contract, checked syntactically), derive(Default) on three bools is all-false, rewrites R4/R6/R7/R8, Verus + z3. "
+                   "The record-level invariant 'no two members share a name' (hashbrown code in ValueWriter::metric) is not reached.",
+        explanation="validation switches for both build profiles",
+        assumptions=["EmfBuilder::build forwards `validation` unchanged", "derive(Default) for Validation is all-false"],
+        unreached=["ValueWriter::metric duplicate / dimension checks (hashbrown entry_ref, peekable)", "EntryDimensions config checks", "missing-dimension sweep in finish()"],
+    ),
 }
